@@ -5,6 +5,7 @@ import MpireModel.Model.Watch
 import MpireModel.Model.Progress
 import MpireModel.Model.BarHandshake
 import MpireModel.Model.ResultIter
+import MpireModel.Model.TimeoutScan
 import MpireModel.Model.Exception
 import MpireModel.Model.History
 import MpireModel.Model.ApplyHandover
@@ -198,6 +199,35 @@ def handleRIter (fs : List (String × String)) : Option String := do
     | .valueError => "valueerror" | .bad => "bad"
   some ("ok " ++ ",".intercalate (outs.map sh) ++
     s!" items={showNats s.items} rec={s.nReceived} ret={s.nReturned} len={match s.nTasks with | some k => toString k | none => "-"} exc={match s.exc with | some k => toString k | none => "-"}")
+
+/-! one round of the timeout handler -/
+open Mpire.TimeoutScan in
+def showWorking : Working → String
+  | .init => "I" | .exit => "E" | .job j => toString j
+
+open Mpire.TimeoutScan in
+def optNat (s : String) : Option (Option Nat) := if s == "-" then some none else s.toNat?.map some
+
+open Mpire.TimeoutScan in
+/-- `tscan now=<n> init=<-|t> exit=<-|t> jobs=<id:isMap:timeout;…> ws=<working:tInit:tTask:tExit;…>` -/
+def handleTScan (fs : List (String × String)) : Option String := do
+  let now ← getNat fs "now"
+  let it ← getOptNat fs "init"
+  let et ← getOptNat fs "exit"
+  let js := (← get fs "jobs")
+  let jobs ← if js == "-" || js == "" then some [] else (js.splitOn ";").mapM fun t => match t.splitOn ":" with
+    | [i, m, to] => do some ({ id := ← i.toNat?, isMap := m == "1", timeout := ← optNat to } : Job)
+    | _ => none
+  let wss := (← get fs "ws")
+  let ws ← if wss == "-" || wss == "" then some [] else (wss.splitOn ";").mapM fun t => match t.splitOn ":" with
+    | [w, a, b, c] => do
+      let working ← if w == "I" then some Working.init else if w == "E" then some Working.exit else w.toNat?.map Working.job
+      some ({ working := working, tInit := ← optNat a, tTask := ← optNat b, tExit := ← optNat c } : Wk)
+    | _ => none
+  let r := round { now := now, initTimeout := it, exitTimeout := et } jobs ws
+  let failed := (r.failed.map fun (wk, w) => s!"{showWorking wk}:{w}").mergeSort (fun a b => a ≤ b)
+  let left := (r.cache.map (·.id)).mergeSort (fun a b => a ≤ b)
+  some s!"ok killed={showNats r.killed} failed={",".intercalate failed} exc={match r.exc with | some w => showWorking w | none => "-"} returned={if r.returned then 1 else 0} cache={showNats left}"
 
 /-! exception -/
 open Mpire.Exc in
